@@ -1,9 +1,9 @@
 SPECIFICATION Spec
 CONSTANTS
   Nodes = {1, 2, 3, 4}
-  Epoch = 1
-  JoinSet = {1, 2, 3, 4}
-  RemainSet = {}
+  Epoch = 2
+  JoinSet = {4}
+  RemainSet = {1, 2, 3}
   LeaveSet = {}
   Leader = 2
   Thr = 3
@@ -14,9 +14,9 @@ CONSTANTS
   LateSet = {}
   RankChoices <- RotRank
   PermuteLists = FALSE
-  AtomicGossip = FALSE
+  AtomicGossip = TRUE
   AtomicExec = FALSE
-  MaxDrop = 0
+  MaxDrop = 1
 INVARIANTS TypeOK Inv_SameTerms Inv_OrderIndependent Inv_OwnIndex Inv_SameQual Inv_NoLoss Inv_EchoHeals Inv_SameGroupButTransition Inv_SameGroup
 VIEW View
 CHECK_DEADLOCK FALSE
